@@ -174,7 +174,8 @@ func (e *Enum) Do(key string, fn func(c *Ctx)) {
 		return
 	}
 	if e.crash && e.cur != nil {
-		b := []byte(strconv.FormatInt(e.mine, 10) + "\n" + key + "\n")
+		// the key is quoted: keys may contain line breaks (multi-line SQL texts)
+		b := []byte(strconv.FormatInt(e.mine, 10) + "\n" + strconv.Quote(key) + "\n")
 		e.cur.WriteAt(b, 0)
 		e.cur.Truncate(int64(len(b)))
 	}
@@ -748,6 +749,9 @@ func runShard(self string, ck *Check, tier string, ss *shardState, n int) (Stats
 		if len(parts) >= 2 {
 			mine, _ = strconv.ParseInt(parts[0], 10, 64)
 			key = parts[1]
+			if uq, err := strconv.Unquote(parts[1]); err == nil {
+				key = uq
+			}
 		}
 	}
 	es := stderr.String()
